@@ -492,7 +492,7 @@ def run(ctx):
     res = Result()
     res.rule = ("one evaluation = one edit applied to the implementation's current circuit and to the model (full state compared); "
                 "non-trivial = the circuit has at least one operation node or the edit raised; distinct by (initial registers, whole edit history so far)")
-    drv = Driver()
+    drv = du.RDriver()
     rng = ctx.rng
     class_table(res)
     if ctx.quick:
@@ -512,13 +512,15 @@ def run(ctx):
         if new_violations(res):
             break
     res.extra["driver_lines"] = drv.n_lines
+    if drv.restarts:
+        res.notes.append(f"model driver restarted {drv.restarts}x (request re-sent)")
     drv.close()
     return res
 
 
 def search(ctx, res, proof_broken):
     """proof or correspondence broke and the oracle has not failed yet: many short walks + the exhaustive short histories"""
-    drv = Driver()
+    drv = du.RDriver()
     exhaustive(ctx, res, drv, 2, SMALL_INITS)
     for _ in range(300):
         if new_violations(res):
